@@ -25,9 +25,104 @@ def marker_clause(k, points, first="0", last="len(sig) - 1"):
     return " or ".join(alts)
 
 
+def _inst_of(E, g):
+    for key, d in E.st.ghost.get('cmap_inst', {}).items():
+        if E.st.ghost[key][1].eq(g):
+            return d
+    return None
+
+
+def _window_proof(P):
+    """after limit_signal: on the sample grid the two successive mask selections (t >= first / fs, then t < stop / fs) keep
+    exactly the samples first .. stop - 1, i.e. entry j of the limited arrays is entry first + j of the originals (counting
+    functions of the two selections, one induction each)"""
+    import ast
+    import z3
+    from vf.engine import Unsupported
+    E, env, node = P.E, P.env, P.node
+    if not (isinstance(getattr(node, 'value', None), ast.Call) and ast.unparse(node.value.func).endswith('limit_signal')):
+        return
+    done = E.st.ghost.setdefault('plts_windows', {})
+    a, b = E.entry_env['xlim_first'].t, E.entry_env['xlim_stop'].t
+    n = E.entry_env['sig'].n
+    j = z3.Int('G_j')
+    for nm in ('times', 'sig'):
+        arr = env[nm]
+        meta = getattr(arr, 'meta', {})
+        if 'cmap' not in meta or 'cmap' not in getattr(meta['compress_of'][0], 'meta', {}):
+            raise Unsupported('plot proof: limit_signal did not return a two-stage selection')
+        (m2, g2, cnt2), (m1, g1, cnt1) = meta['cmap'], meta['compress_of'][0].meta['cmap']
+        for stage, (m, g, cnt), lo, width, total in ((1, (m1, g1, cnt1), a, n - a, n), (2, (m2, g2, cnt2), 0, b - a, n - a)):
+            if str(g) in done:
+                continue
+            tag = 'win%d' % (len(done) + 1)
+            done[str(g)] = tag
+            inst = _inst_of(E, g)
+            if inst is None:
+                raise Unsupported('plot proof: selection map without instantiable axioms')
+            # stage 1 keeps the indices >= first; stage 2 keeps the first stop - first of what is left
+            keep = (lambda x: x >= a) if stage == 1 else (lambda x: x < b - a)
+            by_mask = [] if stage == 1 else [P.inst(done[str(g1)] + ':map', j)]
+            P.forall(tag + ':mask', [j], z3.And(j >= 0, j < total), inst['mask'](j) == keep(j), by=by_mask)
+            count = (lambda x: z3.If(x <= a, 0, x - a)) if stage == 1 else (lambda x: z3.If(x <= b - a, x, b - a))
+            P.induct_q(tag + ':count', j, z3.IntVal(0), total, cnt(j) == count(j), lambda i: [inst['rec'](i), P.inst(tag + ':mask', i)])
+            P.ground(tag + ':len', m == width, by=[P.inst(tag + ':count', total), inst['base'], E.st.ghost['facts']['requires'][1]])
+            P.forall(tag + ':map', [j], z3.And(j >= 0, j < width), g(j) == lo + j,
+                     by=[inst['hit'](lo + j), P.inst(tag + ':count', lo + j), P.inst(tag + ':mask', lo + j),
+                         E.st.ghost['facts']['requires'][1]], patterns=[g(j)])
+        # the first and the last displayed sample, as ground facts (the code computes its window from times[0] and times[-1])
+        t1, t2 = done[str(g1)], done[str(g2)]
+        P.ground('%s:ends' % nm, z3.And(m2 == b - a, g2(0) == 0, g1(0) == a, g2(m2 - 1) == m2 - 1, g1(g2(0)) == a,
+                                        g1(g2(m2 - 1)) == b - 1, g1(m2 - 1) == b - 1),
+                 by=[P.inst(t2 + ':map', 0), P.inst(t2 + ':map', b - a - 1), P.inst(t1 + ':map', 0), P.inst(t1 + ':map', b - a - 1),
+                     E.st.ghost['facts'][t2 + ':len'], E.st.ghost['facts'][t1 + ':len'], E.st.ghost['facts']['requires'][1]])
+
+
+def _grid_window(E, env):
+    """x-limits on the sample grid: (first / fs, stop / fs) for two integers, named xlim_first and xlim_stop in the clauses"""
+    import z3
+    from vf.values import Z, fresh_name
+    a, b = z3.Int(fresh_name('xlim_first')), z3.Int(fresh_name('xlim_stop'))
+    fs = env['fs'].t
+    env['xlim_first'], env['xlim_stop'] = Z(a, INT), Z(b, INT)
+    return (Z(z3.ToReal(a) / fs, REAL), Z(z3.ToReal(b) / fs, REAL))
+
+
+def _grid_window_at_call(E, bound):
+    """the two grid integers of x-limits that were built as (first / fs, stop / fs)"""
+    import z3
+    from vf.engine import Unsupported
+    from vf.values import Z
+    xl, fs = bound.get('xlim'), bound.get('fs')
+    out = {}
+    for name, v in zip(('xlim_first', 'xlim_stop'), xl if isinstance(xl, tuple) else ()):
+        t = getattr(v, 't', None)
+        if t is None or not (z3.is_div(t) and z3.is_to_real(t.arg(0)) and t.arg(1).eq(fs.t)):
+            raise Unsupported('x-limits that are not visibly on the sample grid')
+        out[name] = Z(t.arg(0).arg(0), INT)
+    if len(out) != 2:
+        raise Unsupported('x-limits that are not visibly on the sample grid')
+    return out
+
+
 def _array_cases():
     out = []
     kinds = ('peaks', 'troughs', 'rises', 'decays')
+    for label, given, plot_sig in (('all-kinds', kinds, False), ('all-kinds', kinds, True), ('extrema-only', kinds[:2], False),
+                                  ('zerox-only', kinds[2:], True), ('no-kinds', (), True)):
+        params = {'sig': ('arr', REAL), 'fs': REAL, 'plot_sig': ('const', plot_sig), 'ax': 'opaque', 'kwargs': ('dict', {}),
+                  'xlim': ('derived', _grid_window, ('tuple', [REAL, REAL]))}
+        for k in kinds:
+            params[k] = ('arr', INT) if k in given else 'none'
+        out.append(dict(
+            label='xlim=grid,%s,plot_sig=%s' % (label, plot_sig), params=params,
+            # a window of at least one sample inside the signal; the view is the displayed sample range [first, stop - 1]
+            requires=["fs > 0", "0 <= xlim_first and xlim_first < xlim_stop and xlim_stop <= len(sig)"],
+            inline_callees=['bycycle.utils.timeseries.limit_signal'], call_ghosts=_grid_window_at_call,
+            proof={('after_assign', 'times'): _window_proof},
+            ensures=["result is None",
+                     "len(call_arg(%s, 'times')) == %d and len(call_arg(%s, 'sigs')) == %d" % (PTS, len(given), PTS, len(given))]
+            + [marker_clause(k, nm, first="xlim_first", last="xlim_stop - 1") for k, nm in enumerate(given)]))
     for label, given in (('all-kinds', kinds), ('extrema-only', kinds[:2]), ('zerox-only', kinds[2:]), ('peaks-only', kinds[:1]), ('no-kinds', ())):
         for plot_sig in (False, True):
             params = {'sig': ('arr', REAL), 'fs': REAL, 'plot_sig': ('const', plot_sig), 'xlim': 'none', 'ax': 'opaque',
@@ -71,11 +166,16 @@ def _df_cases():
     for centre in ('peak', 'trough'):
         side = 'trough' if centre == 'peak' else 'peak'
         cols = {c: INT for c in sample_cols(centre)}
-        for pe, pz, ps in ((True, True, True), (True, True, False), (True, False, False), (False, True, True), (False, False, True)):
+        for pe, pz, ps, grid in ((True, True, True, False), (True, True, False, False), (True, False, False, False),
+                                 (False, True, True, False), (False, False, True, False),
+                                 (True, True, True, True), (True, True, False, True), (True, False, False, True),
+                                 (False, True, True, True), (False, False, True, True)):
             if True:
                 ens = ["result is None",
                        # the signal, the rate and the (absent) limits reach the array version unchanged
-                       "call_arg(%s, 'sig') is sig and call_arg(%s, 'fs') == fs and call_arg(%s, 'xlim') is None" % (PCA, PCA, PCA)]
+                       "call_arg(%s, 'sig') is sig and call_arg(%s, 'fs') == fs and " % (PCA, PCA) +
+                       ("call_arg(%s, 'xlim') is None" % PCA if not grid else
+                        "call_arg(%s, 'xlim')[0] == xlim[0] and call_arg(%s, 'xlim')[1] == xlim[1]" % (PCA, PCA))]
                 if pe:
                     ctr = "call_arg(%s, 'peaks')" % PCA
                     sd = "call_arg(%s, 'troughs')" % PCA
@@ -103,11 +203,12 @@ def _df_cases():
                     extra = dict(proof={('before_return',): _unique_proof(ens[4], ens[5])},
                                  ensures_using={5: ['unique:contains'], 6: ['unique:only']})
                 out.append(dict(
-                    label='%s-centred,extrema=%s,zerox=%s,plot_sig=%s' % (centre, pe, pz, ps), **extra,
+                    label='%s-centred,extrema=%s,zerox=%s,plot_sig=%s,xlim=%s' % (centre, pe, pz, ps, 'grid' if grid else 'None'), **extra,
                     params={'df_samples': ('frame', cols), 'sig': ('arr', REAL), 'fs': REAL, 'plot_sig': ('const', ps),
-                            'plot_extrema': ('const', pe), 'plot_zerox': ('const', pz), 'xlim': 'none', 'ax': 'opaque',
-                            'kwargs': ('dict', {})},
-                    requires=["fs > 0", "len(sig) >= 2"],
+                            'plot_extrema': ('const', pe), 'plot_zerox': ('const', pz), 'ax': 'opaque', 'kwargs': ('dict', {}),
+                            'xlim': ('derived', _grid_window, ('tuple', [REAL, REAL])) if grid else 'none'},
+                    requires=["fs > 0"] + (["len(sig) >= 2"] if not grid else
+                                           ["0 <= xlim_first and xlim_first < xlim_stop and xlim_stop <= len(sig)"]),
                     ensures=ens))
     return out
 
